@@ -162,7 +162,6 @@ def tgtChecks (t : Tgt) (T : TState) : List Chk :=
 def opChecks (o : Opcode) (l : TypeDef) (lv : Option Value) (T1 : TState) (r : TypeDef) (Tr : TState)
     (rEffectFree : Bool) : List Chk :=
   let lu := l.upgradeUndefined
-  let res := (opInfo o l lv T1 r Tr none).1
   match o with
   | .err =>
     chk .kindUnion (unionOk l.kind r.kind) ++ chk .kindUnion (unionOk l.returns r.returns) ++
@@ -191,7 +190,7 @@ def opChecks (o : Opcode) (l : TypeDef) (lv : Option Value) (T1 : TState) (r : T
       chk .nan false
   | _ =>
     chk .kindUnion (unionOk l.returns r.returns) ++
-      chk .nan (!(isArith o && res.kind.prim.float))
+      chk .nan (!(isArith o && (arithDef o l r false).kind.prim.float))
 
 /-- the external environment after `del` on an external path -/
 def delExtChecks (T : TState) (isMeta : Bool) (p : Path) (compact : Option Bool) : List Chk :=
